@@ -23,11 +23,17 @@ theorem rect_colsAlong (cols : List (List Int)) (idx : List Nat) : Rect idx.leng
   obtain ⟨c', _, rfl⟩ := hc
   simp
 
-theorem faithful_keysAlong {keys : List KeyCol} (h : Faithful keys) (idx : List Nat) : Faithful (keysAlong keys idx) := by
+theorem faithful_keysAlong {keys : List KeyCol} {n : Nat} (h : Faithful keys) (hrect : Rect n (keys.map (·.data)))
+    (idx : List Nat) (hidx : ∀ i ∈ idx, i < n) : Faithful (keysAlong keys idx) := by
   intro k hk
   simp only [keysAlong, mem_map] at hk
   obtain ⟨k', hk', rfl⟩ := hk
-  exact h k' hk'
+  have hlen : k'.data.length = n := hrect k'.data (mem_map.2 ⟨k', hk', rfl⟩)
+  intro a ha b hb hab
+  simp only [mem_map] at ha hb
+  obtain ⟨i, hi, rfl⟩ := ha
+  obtain ⟨j, hj, rfl⟩ := hb
+  exact h k' hk' _ (getD_mem (by have := hidx i hi; omega)) _ (getD_mem (by have := hidx j hj; omega)) hab
 
 theorem gatherKeys_ok (n : Nat) (idx : List Nat) (hidx : ∀ i ∈ idx, i < n) : ∀ (keys : List KeyCol),
     Rect n (keys.map (·.data)) → gatherKeys keys idx = .ok (keysAlong keys idx)
@@ -128,7 +134,7 @@ theorem spans_stacked (k0 : KeyCol) (ks : List KeyCol) (n : Nat) (hrect : Rect n
         fun j => by simp [keyAt]
       simp only [neq, bne, hinj, hk]
       congr 1
-      have := eq_stacked (k0 :: ks) hf (i - 1) i
+      have := eq_stacked n (k0 :: ks) hrect hf (i - 1) i (by omega) hi
       by_cases hc : (k0 :: ks).map (fun k => k.data.getD (i - 1) 0) = (k0 :: ks).map (fun k => k.data.getD i 0)
       · rw [beq_iff_eq.2 hc, beq_iff_eq.2 (this.2 hc)]
       · rw [beq_eq_false_iff_ne.2 hc, beq_eq_false_iff_ne.2 (fun h => hc (this.1 h))]
